@@ -136,10 +136,10 @@ prop('C17_', units=[])
 del PROPS['C17_']
 
 prop('C18', units=['conv', 'qt'], level='proof',
-     technique='Verus: all of FxTracker (implied rate, signed shares == cash amount, implicit conversion amount, pairing errors, unpaired row => Err) and impl Ord for BrokerTx == (settlement date, timestamp, tiebreak class, tiebreak, row); questrade::sheet_to_txs and its per-row handler (the immediately-invoked closure, as a function): one transaction per BUY / SELL / DIS / LIQ row in row order with that row\'s dates, absolute quantity, price, absolute commission, currency and account-derived affiliate (spec function `emitted`), nothing for the documented non-trade activities, and per row the exact FX side effect (USD dividend = its net amount; non-CAD trade = -/+ price x quantity - commission; conversion leg handed on with its net amount and currency)',
-     level_text='Deductive proof (Verus) for the FX-tracking and ordering layer of the Questrade converter and for the row loop of sheet_to_txs, for all sheets: which rows yield a transaction, with which fields, and what each row does to the FX ledger. What a cell contains, upper-casing, the account-type pattern, date parsing and the symbol alias table are uninterpreted functions of the text (shim/xl_stubs.rs). Sheet reading itself (office crate, header map) is outside; blank-header independence is watched by witness D7.',
+     technique='Verus: all of FxTracker (implied rate, signed shares == cash amount, implicit conversion amount, pairing errors, unpaired row => Err) and impl Ord for BrokerTx == (settlement date, timestamp, tiebreak class, tiebreak, row); questrade::sheet_to_txs and its per-row handler (the immediately-invoked closure, as a function): one transaction per BUY / SELL / DIS / LIQ row in row order with that row\'s dates, absolute quantity, price, absolute commission, currency and account-derived affiliate (spec function `emitted`), nothing for the documented non-trade activities, and per row the exact FX side effect (USD dividend = its net amount; non-CAD trade = -/+ price x quantity - commission; conversion leg handed on with its net amount and currency), and the whole-sheet cash conservation: the signed share total of the emitted FX rows equals the net USD cash flow of the conversions, USD dividends and non-CAD trades of the sheet (loop invariant fx_bal == flow_sum)',
+     level_text='Deductive proof (Verus) for the FX-tracking and ordering layer of the Questrade converter and for the row loop of sheet_to_txs, for all sheets converted without complaint: which rows yield a transaction, with which fields, what each row does to the FX ledger, and that the FX rows add up to the sheet\'s net USD cash flow. What a cell contains, upper-casing, the account-type pattern, date parsing and the symbol alias table are uninterpreted functions of the text (shim/xl_stubs.rs). Sheet reading itself (office crate, header map) is outside; blank-header independence is watched by witness D7.',
      level_note=BK_NOTE + ' String::cmp is an uninterpreted total order; the ".FX" symbol concatenation is a hole. Unit qt: rewrites R29 (the row closure becomes fn row_body, captured variables as parameters, `row_num` dereferenced), R30 (match on string literals / String == literal -> if-chain over a stand-in string equality: Verus gives literal patterns no meaning), holes for the two literal action tables (with their contents), the alias look-up, memo concatenation, the clone of the FX rows; SheetReader, Range, Path are stand-ins.',
-     not_covered=['SheetReader / read_sheet_header (header name -> column; witness D7)', 'the sum over a whole sheet of signed FX shares == net cash flow (stated per row only)', 'tx_export_convert_impl option filters (--account, --security, --no-fx, --no-sort): regex / iterator code'],
+     not_covered=['SheetReader / read_sheet_header (header name -> column; witness D7)', 'tx_export_convert_impl option filters (--account, --security, --no-fx, --no-sort): regex / iterator code'],
      witnesses=['D7', 'D17'])
 
 prop('C20', units=['pdf', 'fmv'], level='proof',
